@@ -13,21 +13,34 @@ from harness.util import guarded, first_failures
 ID = 'C20'
 LEVEL = 'proof'
 LEVEL_TEXT = ('Table theorems proved by decide over data a translator regenerates from the current source on every run '
-              '(menus of _gui.py, key structure of gui-config.json, colormap, allowed_codes, stabilizer types of every '
+              '(menus of _gui.py, COMPLETE content of gui-config.json, colormap, allowed_codes, stabilizer types of every '
               'class): every code x picture x stabilizer type and every qubit description exists and is complete; the '
               'decoders offered are exactly those declaring support. Generic theorems (any tables): completeness implies '
               'every backend lookup succeeds with all colours resolved; offered <-> allowed; one description per coordinate '
-              'in index order. The table model is tied to the Flask backend by differential runs through the test client '
-              '(menus, per-type descriptions), and the statement-level oracle compares /code-data, /decode and /new-errors '
-              'with direct library calls for every menu combination of the bounded size set.')
-LEVEL_NOTE = ('trusted: Lean kernel + standard axioms; translator harness/regen_gui.py; Flask/JSON layer and the per-class '
-              'geometry tweaks of the descriptions are tested (compared with direct library calls), not modelled; menu '
-              'sizes beyond the bounded set (up to 12) are only covered in the thorough tier up to 6 (3-D) / 8 (2-D); '
-              'the JavaScript front-end is out of scope')
-TECHNIQUE = ('Lean 4 proof by decide over tables regenerated from the source by a translator + generic lookup theorems; '
-             'differential correspondence through the Flask test client')
-TRUSTED = ['translator harness/regen_gui.py (AST-free: imports the module and reads the JSON)',
-           'HTTP/JSON layer tested only']
+              'in index order. List part of /code-data (Properties/C20Repr.lean): a Lean model of stabilizer_representation / '
+              'qubit_representation (base class and the per-class overrides of all 16 menu classes, floats kept symbolic) and '
+              'of send_code_data on the hand-written all-sizes lattice models; proved for EVERY size of each class, every '
+              'offered deformation and both pictures: the request succeeds with exactly n qubit and m stabilizer descriptions, '
+              'the i-th one computed from and located at the i-th library coordinate, each with object, colour, opacity, '
+              'params, location (no look-up miss), and H / logical_x / logical_z are the matrices of the C01 valid_code '
+              'theorems (relabelled qubit by qubit under a deformation, C08; validity transfers). The model is tied to the '
+              'Flask backend by differential runs through the test client: menus, per-type descriptions, and EVERY field of '
+              'every description plus H / logicals / order of /code-data for every menu class x sizes x deformation x picture; '
+              'the statement-level oracle compares /code-data, /decode and /new-errors with direct library calls.')
+LEVEL_NOTE = ('trusted: Lean kernel + standard axioms; translator harness/regen_gui.py; the Flask/JSON layer is tested '
+              '(compared field by field with the model), not modelled; floats the source computes with numpy (np.pi/4, '
+              'np.sqrt(2)/2, z*1.4142, y+-0.9) are symbolic constants of the model, matched by exact float equality with the '
+              'same Python operation in the harness; nothing specifies what a drawing should look like (the theorems are about '
+              'completeness, order, location and the matrices, not about geometric correctness of normals and angles); error '
+              'kinds are compared as "HTTP error" only; menu sizes beyond the bounded set (up to 12) are covered by the all-sizes '
+              'theorems on the model side and by the streams up to 6 (3-D) / 8 (2-D) in the thorough tier; /decode and '
+              '/new-errors are compared with library calls only; the JavaScript front-end is out of scope')
+TECHNIQUE = ('Lean 4 proof by decide over tables regenerated from the source by a translator + generic lookup theorems + '
+             'all-sizes theorems about a hand-written model of the representation methods and send_code_data; '
+             'differential correspondence through the Flask test client (every field of /code-data)')
+TRUSTED = ['translator harness/regen_gui.py (AST-free: imports the module and reads the JSON; float literals as exact decimals)',
+           'HTTP/JSON layer tested only',
+           'float tags: a float of the answer is recognised by exact equality with the Python operation the source performs']
 ASSUMPTIONS = ['supported lattice families of DESIGN.md section 4; menu = _gui.codes/_gui.decoders + main.js (sizes 1..12, coprime L+1)']
 
 
